@@ -168,6 +168,8 @@ module Z :
 
   val eqb : z -> z -> bool
 
+  val min : z -> z -> z
+
   val abs : z -> z
 
   val to_nat : z -> nat
@@ -193,11 +195,21 @@ module Z :
 
 val zeq_bool : z -> z -> bool
 
+val hd : 'a1 -> 'a1 list -> 'a1
+
 val nth : nat -> 'a1 list -> 'a1 -> 'a1
+
+val nth_error : 'a1 list -> nat -> 'a1 option
+
+val rev : 'a1 list -> 'a1 list
+
+val concat : 'a1 list list -> 'a1 list
 
 val map : ('a1 -> 'a2) -> 'a1 list -> 'a2 list
 
 val flat_map : ('a1 -> 'a2 list) -> 'a1 list -> 'a2 list
+
+val fold_left : ('a1 -> 'a2 -> 'a1) -> 'a2 list -> 'a1 -> 'a1
 
 val fold_right : ('a2 -> 'a1 -> 'a1) -> 'a1 -> 'a2 list -> 'a1
 
@@ -211,7 +223,13 @@ val find : ('a1 -> bool) -> 'a1 list -> 'a1 option
 
 val combine : 'a1 list -> 'a2 list -> ('a1 * 'a2) list
 
+val firstn : nat -> 'a1 list -> 'a1 list
+
+val skipn : nat -> 'a1 list -> 'a1 list
+
 val seq : nat -> nat -> nat list
+
+val repeat : 'a1 -> nat -> 'a1 list
 
 type ascii =
 | Ascii of bool * bool * bool * bool * bool * bool * bool * bool
@@ -302,6 +320,8 @@ val getS : v -> string
 val getL : v -> v list
 
 val getQ : v -> q
+
+val nthV : nat -> v -> v
 
 type 'a res =
 | Ok of 'a
@@ -416,6 +436,18 @@ val fmt_fixed : nat -> nat -> q -> string
 
 val round_dec : nat -> q -> q
 
+val mem : ('a1 -> 'a1 -> bool) -> 'a1 -> 'a1 list -> bool
+
+val dedup_aux : ('a1 -> 'a1 -> bool) -> 'a1 list -> 'a1 list -> 'a1 list
+
+val dedup_keep_first : ('a1 -> 'a1 -> bool) -> 'a1 list -> 'a1 list
+
+val insert_sorted : ('a1 -> 'a1 -> bool) -> 'a1 -> 'a1 list -> 'a1 list
+
+val sort_by : ('a1 -> 'a1 -> bool) -> 'a1 list -> 'a1 list
+
+val seqZ : z -> nat -> z list
+
 val repeat_str : string -> nat -> string
 
 type blank_default =
@@ -483,6 +515,10 @@ val dockq_formula : q -> q -> q -> q -> q -> q
 val col_src : (string * string) list
 
 val delimiter_src : (string * (nat * nat)) list
+
+val sql_limit_src : z
+
+val max_sql_values_src : z
 
 val atom_prefix_src : string
 
@@ -737,6 +773,408 @@ val vvec : vec -> v
 val rows_of_V : v -> row list
 
 val run_superpose : string -> v list -> v option
+
+type pv =
+| PInt of z
+| PFloat of q
+| PStr of string
+| PNone
+
+type cval =
+| CScalar of pv
+| CList of pv list
+
+type conds = (string * cval) list
+
+val upper_ascii : ascii -> ascii
+
+val str_upper : string -> string
+
+val ci_eqb : string -> string -> bool
+
+type aff =
+| AInt
+| AText
+| ABlob
+| AReal
+| ANumeric
+
+val affinity_of_decl : string -> aff
+
+val aff_numeric : aff -> bool
+
+val two53 : z
+
+val int_in_range : z -> bool
+
+val q_is_int : q -> bool
+
+val q_to_int : q -> z
+
+type numtext =
+| NTNum of q
+| NTText
+| NTOut
+
+val only_chars : string -> string -> bool
+
+val sql_numeric_text : string -> numtext
+
+val q_eq_canon : q -> q -> bool
+
+val val_sql_eq : val0 -> val0 -> bool
+
+val is_null : val0 -> bool
+
+val out_of_model : 'a1 res
+
+val real_val : q -> val0
+
+val num_val_int_pref : q -> val0 res
+
+val cmp_operand : aff -> pv -> val0 res
+
+val store_val : aff -> pv -> val0 res
+
+val default_store : aff -> pv -> val0 res
+
+val in_true : val0 -> val0 list -> bool
+
+val not_in_true : val0 -> val0 list -> bool
+
+val cond_true : bool -> val0 -> val0 list -> bool
+
+val is_alpha_ : ascii -> bool
+
+val all_ident_chars : string -> bool
+
+val ident_shape : string -> bool
+
+val sql_keywords : string list
+
+val is_keyword : string -> bool
+
+val plain_ident : string -> bool
+
+val rowid_aliases : string list
+
+val is_rowid_alias : string -> bool
+
+type table0 = { tcols : (string * string) list; trows : row list }
+
+type db = { tables : (string * table0) list; nmodel : nat }
+
+type pyv =
+| PV of val0
+| PL of pyv list
+
+val find_ci : string -> (string * string) list -> nat -> nat option
+
+val find_table : string -> (string * table0) list -> table0 option
+
+val set_table :
+  string -> table0 -> (string * table0) list -> (string * table0) list
+
+type cref =
+| CRowid
+| CCol of nat
+
+val cell : z -> row -> cref -> val0
+
+val col_aff : table0 -> cref -> aff
+
+type scond = (cref * bool) * val0 list
+
+val row_ok : scond list -> z -> row -> bool
+
+val select_from : z -> row list -> cref list -> scond list -> row list
+
+val sql_select : table0 -> cref list -> scond list -> row list
+
+val special_literals : string list
+
+val resolve_name : table0 -> string -> cref option res
+
+val split_comma_aux : string -> string -> string list
+
+val split_comma : string -> string list
+
+val mem_str : string -> string list -> bool
+
+val index_of0 : string -> string list -> nat -> nat option
+
+val has_key : string -> conds -> bool
+
+val dict_set : string -> cval -> conds -> conds
+
+val key_of0 : string -> bool * string
+
+val chunks_aux : nat -> nat -> pv list -> pv list list
+
+val chunks : nat -> pv list -> pv list list
+
+val set_nth : nat -> 'a1 -> 'a1 list -> 'a1 list
+
+val nodup_str : string list -> bool
+
+val max_sql_values : z
+
+val sql_limit : z
+
+val valid_colnames : db -> string list res
+
+val check_columns_get : string list -> string -> unit res
+
+val sel_list : table0 -> string -> cref list res
+
+val check_keys : table0 option -> conds -> unit res
+
+val rowid_shift : pv -> pv res
+
+type loop_res =
+| LErr of string
+| LChunk of string * pv list list
+| LDone of ((string * bool) * pv list) list
+
+val cond_loop : conds -> ((string * bool) * pv list) list -> loop_res
+
+val total_vals : ((string * bool) * pv list) list -> z
+
+val limit_error : conds -> string
+
+val norm_cond : table0 -> ((string * bool) * pv list) -> scond res
+
+val dec_at : nat -> row -> row
+
+val post : string -> row list -> pyv list res
+
+val table_name_ok : string -> bool
+
+val get_model : nat -> db -> string -> string -> conds -> pyv list res
+
+val get_fuel : conds -> nat
+
+val get_top : db -> string -> string -> conds -> pyv list res
+
+val store_cells : table0 -> nat list -> pv list -> row -> row res
+
+val rid_index : z -> nat option
+
+val exec_many :
+  table0 -> nat list -> (pv list * z) list -> table0 * string option
+
+val set_list : table0 -> string list -> nat list res
+
+type uval =
+| URow of pv list
+| UStr of string
+| UScalar of pv
+
+val chars_of : string -> pv list
+
+val uval_len : uval -> nat res
+
+val uval_items : uval -> pv list res
+
+type ures = db * string option
+
+val int_of_val : pyv -> z res
+
+val update_model : nat -> db -> string -> uval list -> string -> conds -> ures
+
+val update_top : db -> string -> uval list -> string -> conds -> ures
+
+val update_xyz_top : db -> uval list -> string -> conds -> ures
+
+val index_val : pv -> z res
+
+val zip_idx : pv list -> pv list -> (pv list * z) list res
+
+val enum_idx : pv list -> z -> (pv list * z) list
+
+val update_column_model :
+  db -> string -> pv list -> pv list option -> string -> ures
+
+val default_literal : pv -> pv res
+
+val add_column_model : db -> string -> string -> pv -> string -> ures
+
+val str_leb : string -> string -> bool
+
+val text_of0 : pyv -> string res
+
+val sorted_set : string list -> string list
+
+val upper_letters : string list
+
+val fix_fill : db -> string list -> string list -> pv list -> pv list res
+
+val fix_chainID_model : db -> ures
+
+val get_xyz_model : db -> string -> conds -> pyv list res
+
+val val_py_eqb : val0 -> val0 -> bool
+
+val pyv_eqb_row : val0 list -> val0 list -> bool
+
+val row_of : pyv -> val0 list res
+
+val get_residues_model : db -> string -> conds -> val0 list list res
+
+val get_chains_model : db -> string -> conds -> string list res
+
+val get_all_model : db -> string -> conds -> pyv list res
+
+type op =
+| OpUpdate of string * uval list * string * conds
+| OpUpdateColumn of string * pv list * pv list option * string
+| OpUpdateXyz of uval list * string * conds
+| OpAddColumn of string * string * pv * string
+| OpFixChainID
+
+val model_step : db -> op -> ures
+
+val unspecified : 'a1 res
+
+val rejected : 'a1 res
+
+val with_positions : 'a1 list -> (nat * 'a1) list
+
+val spec_cell : nat -> row -> cref -> val0
+
+val spec_cond_attr : table0 -> string -> cref option
+
+val find_exact : string -> (string * string) list -> nat -> nat option
+
+val spec_req_attr : table0 -> string -> cref option
+
+val spec_attrs : table0 -> string -> cref list res
+
+val spec_values : cval -> pv list
+
+val is_pint : pv -> bool
+
+val rowid_in_model : pv -> bool
+
+val spec_cond : table0 -> (string * cval) -> scond res
+
+val spec_names_ok : table0 -> conds -> bool
+
+val spec_holds : nat -> row -> scond -> bool
+
+val spec_matches : scond list -> (nat * row) -> bool
+
+val spec_select : table0 -> scond list -> (nat * row) list
+
+val spec_project : cref list -> (nat * row) -> val0 list
+
+val spec_shape : cref list -> val0 list list -> pyv list
+
+val spec_total : conds -> z
+
+val spec_conds : db -> string -> conds -> (table0 * scond list) res
+
+val spec_get : db -> string -> string -> conds -> pyv list res
+
+val spec_positions : db -> string -> conds -> nat list res
+
+val spec_get_xyz : db -> string -> conds -> pyv list res
+
+val spec_get_residues : db -> string -> conds -> val0 list list res
+
+val spec_get_chains : db -> string -> conds -> string list res
+
+val spec_get_all : db -> string -> conds -> pyv list res
+
+val write_cells : nat list -> val0 list -> row -> row
+
+val index_of_nat : nat -> nat list -> nat -> nat option
+
+val with_table : db -> string -> table0 -> db
+
+val spec_write_cols : table0 -> string list -> nat list res
+
+val uval_row : uval -> pv list option
+
+val shape_ok : nat -> nat -> uval list -> bool
+
+val spec_update : db -> string -> uval list -> string -> conds -> ures
+
+val spec_update_xyz : db -> uval list -> string -> conds -> ures
+
+val last_for : nat -> (z * val0) list -> val0 option -> val0 option
+
+val spec_update_column :
+  db -> string -> pv list -> pv list option -> string -> ures
+
+val spec_add_column : db -> string -> string -> pv -> string -> ures
+
+val spec_fix_chainID : db -> ures
+
+val spec_step : db -> op -> ures
+
+val long_list : cval -> bool
+
+val f10_class : conds -> bool
+
+val first_long : conds -> (string * pv list) option
+
+val sep : ('a1 -> bool) -> ('a1 -> bool) -> 'a1 list -> bool
+
+val any_of : ('a1 -> bool) list -> 'a1 -> bool
+
+val seps : 'a1 list -> ('a1 -> bool) list -> bool
+
+val f11_safe : nat -> db -> string -> conds -> bool
+
+val f11_class : db -> string -> conds -> bool
+
+val dec_val : v -> val0
+
+val dec_pv : v -> pv
+
+val dec_cval : v -> cval
+
+val dec_kw : v -> conds
+
+val dec_uval : v -> uval
+
+val dec_index : v -> pv list option
+
+val dec_table : v -> string * table0
+
+val dec_db : v -> db
+
+val enc_val : val0 -> v
+
+val enc_pyv : pyv -> v
+
+val enc_out : pyv list res -> v
+
+val enc_table : (string * table0) -> v
+
+val enc_db : db -> v
+
+val enc_status : string option -> v
+
+type engine = { e_get : (db -> string -> string -> conds -> pyv list res);
+                e_xyz : (db -> string -> conds -> pyv list res);
+                e_residues : (db -> string -> conds -> val0 list list res);
+                e_chains : (db -> string -> conds -> string list res);
+                e_get_all : (db -> string -> conds -> pyv list res);
+                e_step : (db -> op -> ures); e_is_spec : bool }
+
+val model_engine : engine
+
+val spec_engine : engine
+
+val a : nat -> v list -> v
+
+val run_op : engine -> db -> v -> db * v
+
+val run_ops : engine -> db -> v list -> v list
+
+val run_sql : string -> v list -> v option
 
 val vresS : string res -> v
 
